@@ -7,6 +7,9 @@ namespace MageModel.Bridge.C14
 open MageModel
 theorem shape_F : Generated.Shapes.mg_F = Bridge.Expected.mg_F := rfl
 theorem shape_checkF : Generated.Shapes.mg_checkF = Bridge.Expected.mg_checkF := rfl
+theorem shape_fn_Name : Generated.Shapes.mg_fn_Name = Bridge.Expected.mg_fn_Name := rfl
+theorem shape_fn_ID : Generated.Shapes.mg_fn_ID = Bridge.Expected.mg_fn_ID := rfl
+theorem shape_fn_Run : Generated.Shapes.mg_fn_Run = Bridge.Expected.mg_fn_Run := rfl
 theorem shape_funcName : Generated.Shapes.mg_funcName = Bridge.Expected.mg_funcName := rfl
 theorem shape_LoadOrStore : Generated.Shapes.mg_onceMap_LoadOrStore = Bridge.Expected.mg_onceMap_LoadOrStore := rfl
 theorem argTypes_keys : Generated.Facts.mg_argTypes =
